@@ -4,6 +4,7 @@ import Driver.Lat
 import Pcore.Model.FormatX
 import Pcore.Model.FormatMergeG
 import Pcore.Model.FormatLat
+import Pcore.Model.FormatSpan
 /-! Driver ops of C20 for the extended model (syntax in harness/c20/c20.go):
     `fmtx <ctx> <value>` — every value kind with a ToString of its own, format maps keyed by the parameterless default types of all
     kinds (`XKey`); ctx `mmap` = the user's map merged with the defaults (`contextMapG xkeyOrd`);
@@ -184,7 +185,18 @@ def execFmtT (io : FloatIO) (ctx ve : Sexp) : String :=
            else resStr (formatLatMerged Lat.cfg Lat.sfh io m v))
       | _ => "bad-op"
 
+/-- `span xFORMAT NS`: `Timespan(NS).Format(FORMAT)` -/
+def execSpan (fm : String) (ns : Int) : String :=
+  match spanFormat fm.toList ns with
+  | .text s => "text " ++ hexOfString (String.ofList s)
+  | .badSpec => "reported PCORE_TIMESPAN_BAD_FORMAT_SPEC"
+  | .fault => "fault"
+
 def exec : List Sexp → String
+  | [.atom "span", fm, ns] =>
+    (match fm.str?, ns.int? with
+     | some fm, some ns => execSpan fm ns
+     | _, _ => "bad-op")
   | [.atom "fmtx", ctx, ve] => execFmt driverIO ctx ve
   | [.atom "fmtt", ctx, ve] => execFmtT driverIO ctx ve
   | [.atom "keysubx", .atom a, .atom b] =>
